@@ -397,6 +397,9 @@ func Run(a Matrix, args ...interface{}) (Matrix, Matrix, error) {
     inSitu.S = NullScalar(t)
   }
   if symmetric {
+    if computeU {
+      inSitu.Householder.U = inSitu.U
+    }
     if inSitu.C == nil {
       inSitu.C = NullScalar(t)
     }
